@@ -269,6 +269,18 @@ def values_clean(seed, nops=16, family=None):
             last_value[(h, t)] = v
         lines.append('OP %d spawn %d 1%s' % (p, h, comps))
         ents.append(h)
+        if comps and r.random() < 0.5:
+            # the spawner runs ahead alone, the others receive the spawn and its value in ONE frame (the
+            # replica is a freshly tracked entity there), then the spawner writes again at once
+            lines.append('FRAME %d %d' % (p, r.randint(3, 5)))
+            for q in peers:
+                if q != p:
+                    lines.append('FRAME %d 1' % q)
+            val += 1
+            v = val % 3 if t == 3 else val
+            lines.append('OP %d write %d %d %d' % (p, h, t, v))
+            last_value[(h, t)] = v
+            lines.append('ROUND %d' % r.randint(1, 3))
     lines.append('DRAIN 60')
     used = {}
 
@@ -470,13 +482,45 @@ def single_writer_join(seed, frames=36):
     return '\n'.join(lines) + '\n', dict(key=('1', t), writer=w)
 
 
+def single_writer_many(seed):
+    """C10 under load: the host alone writes one component of 140..200 entities in EVERY frame (a
+    simulation step) while a late client joins; every reader — the joiner included — must see the
+    values of each entity in the order written. (A backlog that outlives a frame must not reach a
+    joiner after its snapshot.)"""
+    r = random.Random(seed)
+    n = r.choice([2, 3])
+    t = r.choice([0, 1])
+    lines = _header(r, n, [t])
+    late = n - 1
+    for p in range(n):
+        if p != late:
+            lines.append('OP %d setup' % p)
+    lines.append('ROUND %d' % r.randint(5, 8))
+    k = r.randint(140, 200)
+    for h in range(1, k + 1):
+        lines.append('OP 0 spawn %d 1 %d:1' % (h, t))
+    lines.append('DRAIN 40')
+    start = r.randint(1, 4)
+    val = 1
+    for i in range(r.randint(9, 12)):
+        if i == start:
+            lines.append('OP %d setup' % late)
+        val += 1
+        for h in range(1, k + 1):
+            lines.append('OP 0 write %d %d %d' % (h, t, val))
+        lines.append('ROUND 1')
+    lines.append('DRAIN 60')
+    keys = sorted({1, k, k // 2, r.randint(1, k), r.randint(k // 2, k)})
+    return '\n'.join(lines) + '\n', dict(key=(str(keys[-1]), t), keys=[(str(h), t) for h in keys], writer=0)
+
+
 def parents_clean(seed, nops=12):
     """C05: set-parent / re-parent operations by arbitrary peers; operations on the same child by
     different peers are separated by a drain; no cycles."""
     r = random.Random(seed)
     n = r.choice([2, 3, 3, 4])
     lines = _header(r, n, [0])
-    late = n - 1 if (n > 2 and r.random() < 0.4) else None
+    late = n - 1 if (n > 2 and r.random() < 0.6) else None
     for p in range(n):
         if p != late:
             lines.append('OP %d setup' % p)
@@ -567,7 +611,7 @@ def parents_clean(seed, nops=12):
     if late is not None:
         lines.append('OP %d setup' % late)
         clients = [q for q in peers if q != 0]
-        if clients and r.random() < 0.7:
+        if clients and r.random() < 0.85:
             # a link made by an established client reaches the host in the very frame in which the host
             # handles the joiner's RequestInitialSync (or one frame around it)
             lines.append('UNTILCONN %d 60' % late)
